@@ -682,3 +682,19 @@ _add_v("C18", "object_bind", "list_bind")             # a missing property is re
 _add_v("C15", "eq")                                   # equal byte sequences are `==` (bytes, not decoded text)
 _add_v("C19", "object_bind", "eq")                    # destructuring and `==` walk the ordered map, never a hash container (which error is reported first is a function of the program)
 _add_v("C19", "main_report")                           # the "expected ..." list of a syntax error is printed in the parser's order (no hash container in between)
+
+
+# round-8: Lexer::next_keyword_or_ident - the keyword table and the identifier text (the last hand-written lexer function without a contract)
+V_LEXIDENT = VUnit("lex_ident", "lex_ident", ["lexer::Lexer::next_keyword_or_ident"])
+ALL_V += [V_LEXIDENT]
+PROPS["C02"]._v = ALL_V
+_add_v("C03", "lex_ident")     # scanning a word terminates; the source is sliced at character boundaries only
+_add_v("C07", "lex_ident")     # break / continue / return / while / for / if / else each reach the parser as their own token
+_add_v("C09", "lex_ident")     # where a word ends (what separates two tokens)
+_add_v("C12", "lex_ident")     # `o.k` names the property "k": the identifier token carries exactly the text written, case preserved
+_add_v("C20", "lex_ident")     # a name is the word as written; a reserved word is never a name
+for _p in ("C03", "C07", "C09", "C12", "C20"):
+    PROPS[_p].assumptions = PROPS[_p].assumptions + [
+        "V-lexident: the scanner is (text, position) with byte index = byte_off(text, position) (as in V-lexint); the `match` on string-literal patterns is rewritten "
+        "arm by arm into `if str_eq(t, \"lit\") .. else ..` (edit D5); `==` on &str, char::is_ascii_alphanumeric, str::to_string are assumed std contracts; the list of "
+        "reserved words in the spec (break continue else false fn for if in null return true while) is written out in the unit from the constructs docs/features.md uses, not read from the code"]
